@@ -1057,7 +1057,7 @@ pub fn run(ctx: &Ctx) -> Outcome {
     let r6 = search(ctx, &m4, "C19", maxd, budget * 1.15, true);
     let r7 = search(ctx, &s3, "C19", maxd, budget * 1.35, true);
     let p1 = PushLife::new(if quick { "push-life-q" } else { "push-life-t" }, quick);
-    let r8 = search(ctx, &p1, "C19", maxd + 1, budget * 1.55, true);
+    let r8 = search(ctx, &p1, "C19", if quick { 12 } else { 16 }, budget * 1.55, true);
     fill_outcome(&mut out, &[(m1.name, &r1), (m2.name, &r2), (m3.name, &r3), (s1.name, &r4), (s2.name, &r5), (m4.name, &r6), (s3.name, &r7), (p1.name, &r8)]);
     out.set("exhaustive", json!(false));
     out.set("alphabet", json!(m2.events.iter().map(|e| format!("{:?}", e)).collect::<Vec<_>>()));
